@@ -81,6 +81,9 @@ type vWorld struct {
 	clockMode int // 0 arbitrary, 1 strictly increasing
 	lastClock int64
 	skipStorageCheck bool
+	poolSize  int
+	curOp     string
+	faultOnly string // restrict faults to operations with this name
 	parseFailOdd bool // certificates whose first byte is odd do not parse (names tile)
 
 	onStep func(inst *vInstance, op, key string) // scheduler hook at every storage/lock operation
@@ -119,7 +122,7 @@ func (w *vWorld) now() int64 {
 }
 
 func (w *vWorld) config(inst *vInstance) *Config {
-	return &Config{Name: w.name, Key: w.key, WitnessKey: w.wkey, PoolSize: 0, Cache: "cache.db",
+	return &Config{Name: w.name, Key: w.key, WitnessKey: w.wkey, PoolSize: w.poolSize, Cache: "cache.db",
 		Backend: &vBackend{w: w, inst: inst}, Lock: &vLock{w: w, inst: inst}}
 }
 
@@ -144,6 +147,7 @@ func (w *vWorld) step(inst *vInstance, op, key string) bool {
 		return true
 	}
 	verifTrace(op + " " + key)
+	w.curOp = op
 	if w.onStep != nil {
 		w.onStep(inst, op, key)
 	}
@@ -160,7 +164,7 @@ func (w *vWorld) yield(what string) {
 
 // outcome draws the fault outcome of a write: 0 ok, 1 error and not applied, 2 error but applied.
 func (w *vWorld) writeOutcome() int {
-	if !w.armed || w.faults == 0 {
+	if !w.armed || w.faults == 0 || (w.faultOnly != "" && w.faultOnly != w.curOp) {
 		return 0
 	}
 	if !verifNondetBool("fault") {
@@ -176,7 +180,7 @@ func (w *vWorld) writeOutcome() int {
 }
 
 func (w *vWorld) readFault() bool {
-	if !w.armed || w.faults == 0 {
+	if !w.armed || w.faults == 0 || (w.faultOnly != "" && w.faultOnly != w.curOp) {
 		return false
 	}
 	if verifNondetBool("fault") {
